@@ -9,6 +9,7 @@ import (
 	"fmt"
 	"io"
 	"os"
+	"sort"
 	"strconv"
 	"strings"
 	"time"
@@ -95,6 +96,15 @@ func helperMain() {
 			helperUsage()
 		}
 		fmt.Print(os.Getenv(a[0]) + "\n")
+	case "environ":
+		if len(a) != 0 {
+			helperUsage()
+		}
+		env := os.Environ()
+		sort.Strings(env)
+		for _, kv := range env {
+			fmt.Print(kv + "\n")
+		}
 	case "pwd":
 		if len(a) != 0 {
 			helperUsage()
